@@ -404,6 +404,20 @@ class Deref(Rule):
         return text
 
 
+def contract_spans(text):
+    """(start, end) of every __CPROVER_<clause>( ... ) region"""
+    spans = []
+    for m in re.finditer(r'__CPROVER_(loop_invariant|decreases|assigns|requires|ensures|assert|assume)\s*\(', text):
+        if spans and m.start() < spans[-1][1]:
+            continue
+        spans.append((m.start(), match_close(text, m.end() - 1, '(', ')') + 1))
+    return spans
+
+
+def in_spans(pos, spans):
+    return any(a <= pos < b for a, b in spans)
+
+
 GENERIC = [
     S(r'\bconstexpr\s+', '', min=0, name='R1:constexpr'),
     S(r'\[\[maybe_unused\]\]\s*', '', min=0, name='R1:maybe_unused'),
